@@ -389,6 +389,10 @@ class CarvedRecord(Payload):
 
                 """
 
+                if ord(data[0:1]) & 0x80:
+                    # The start of a varint of several bytes (which may run past the end of the data)
+                    raise CellCarvingError()
+
                 first_serial_type, first_serial_type_varint_length = decode_varint(
                     data, self.serial_type_definition_start_offset - 1
                 )
@@ -636,6 +640,19 @@ class CarvedRecord(Payload):
                         or header size.  Use cases for this need to be investigated further.
 
                         """
+
+                        preceding_byte_offset = (
+                            self.serial_type_definition_start_offset - 1
+                        )
+                        if (
+                            ord(data[preceding_byte_offset : preceding_byte_offset + 1])
+                            & 0x80
+                        ):
+                            # The start of a varint of several bytes (which may run past the end of the data)
+                            raise CellCarvingError(
+                                "Invalid first serial type varint size determined.  "
+                                "Unable to carve due to probable false positive."
+                            )
 
                         (
                             first_serial_type,
